@@ -52,6 +52,13 @@ var siteStatements = []string{
 	"SELECT count(*) FILTER (WHERE a), quantile(0.5)(x) OVER (PARTITION BY a ORDER BY b), count(DISTINCT a, b, c) FROM t",
 	"SELECT nan, inf, -inf, (nan), [inf, -inf], b'0101', b'01010101 0101', x'4142', SUM(a), sum(b), Sum(c) FROM t",
 	"SELECT a IN (1, 2, 3), b NOT IN (SELECT 1), (1, 2) IN ((1, 2), (3, 4)), CASE a WHEN 1 THEN 2 ELSE 3 END, a BETWEEN 1 AND 2",
+	// union shapes whose rendering regroups / flattens operand lists
+	"SELECT 1 UNION ALL (SELECT 2 UNION DISTINCT SELECT 3 UNION ALL SELECT 4 UNION ALL SELECT 5)",
+	"SELECT 1 UNION DISTINCT SELECT 2 UNION ALL SELECT 3",
+	"SELECT 1 UNION ALL (SELECT 2 UNION ALL SELECT 3) UNION ALL SELECT 4",
+	"(SELECT 1 UNION ALL SELECT 2) UNION DISTINCT SELECT 3 UNION ALL SELECT 4",
+	"SELECT 1 INTERSECT SELECT 2 EXCEPT SELECT 3 UNION ALL SELECT 4",
+	"WITH 1 AS x SELECT x UNION ALL (SELECT 2 UNION DISTINCT SELECT 3 UNION ALL SELECT 4)",
 }
 
 type baseline struct {
